@@ -8,3 +8,7 @@ import PvModel.Props.C16
 #print axioms Pv.C16_domain_check
 #print axioms Pv.C16_domain_nonnum
 #print axioms Pv.C16_singleton_binds
+#print axioms Pv.C16_state_sound
+#print axioms Pv.C16_answer_sound
+#print axioms Pv.C16_run_exact
+#print axioms Pv.C16_run_constraints_exact
